@@ -53,7 +53,11 @@ CHECKS["C05"] = ("other", "dispatch/table agreement, cast and callee allow-lists
                  "Decides three structural clauses for every scalar impl: the Value kinds with an arm equal the accepted list of the single kind report on the fall-through arm; no lossy conversion exists and every integer/NonZero Ok is or_else(TryFrom::<Self>::try_from(the matched payload)) (bool/String unchanged, () only on null, char only when the second next() is None, floats only cast the payload); the domain report's format arguments are the payload and the rustc-evaluated constant <Self>::MAX / MIN of the right arm, NonZero zero arms are guarded by == 0. Numeric exactness is then core's TryFrom (trusted).",
                  TB + "; core TryFrom/`as` semantics; message wording not decided; 64-bit usize", "§5 C05")
 
-NOT_YET = {p: 'check not yet built in this revision of /verif (construction order in DESIGN.md §8); will be claimed when its rule set is armed' for p in ['C13', 'C14'] + ['C%02d' % i for i in range(17, 21)]}
+CHECKS["C19"] = ("other", "decision tables of the six pointer functions extracted from MIR and compared with the only tables satisfying the statement (structural induction)",
+                 "push_key/push_index add exactly one Key/Index node with prev = self and the given key/index; to_owned walks from self, unconditionally pushes one matching component per node, follows prev, stops at Origin and reverses exactly once; is_origin is the Origin discriminant test; last_field = {Origin: None, Key: Some(key), Index: recurse}; first_field = {Origin: None, Index: recurse, Key: recurse.or(Some(key))}.",
+                 TB + "; std Vec::push / rev+collect / Option::or semantics; other shapes of these functions are reported as cannot-establish", "§5 C19")
+
+NOT_YET = {p: 'check not yet built in this revision of /verif (construction order in DESIGN.md §8); will be claimed when its rule set is armed' for p in ['C13', 'C14', 'C17', 'C18', 'C20']}
 
 
 def main():
